@@ -158,6 +158,7 @@ def register(reg):
     register2(reg)
     register3(reg)
     register_static(reg)
+    register_ctor(reg)
 
 
 # ================================================================================================
@@ -410,6 +411,32 @@ def register3(reg):
         ensures=nt_post, modifies=nt_mod, loops={1: dict(invariant=nt_inv)},
     ))
 
+    # ---------------------------------------------------------------- Adapter.notify_targets / Adapter.source_updated
+    AD = "finam.sdk.adapter.Adapter"
+    reg.add(Contract(
+        f"{AD}.notify_targets", self_cls="Adapter", props=["C08.2", "C01.4", "C13.3"], params={"time": TimeOpt},
+        requires=lambda ctx: z3.BoolVal(True),
+        ensures=nt_post, modifies=nt_mod, loops={1: dict(invariant=nt_inv)},
+        raises={"ValueError": lambda ctx: z3.BoolVal(False)},
+    ))
+
+    # source_updated: the adapter first processes the publication itself (its hook), then tells its targets:
+    # a target that pulls from inside the notification must already see the new publication (C13 delay-to-push, C11 buffers)
+    def su_order_push(cc, argmap):
+        a = cc.self
+        pt = cc.get(a, "push_time")
+        return And(Not(is_none(pt)), sv.value_eq(pt, argmap["time"]))
+
+    reg.add(Contract(
+        f"{AD}.source_updated", self_cls="DelayToPush", props=["C13.3"], params={"time": Time},
+        modifies=lambda ctx: nt_mod(ctx) + [(ctx.self, "push_time")],
+        ensures=lambda ctx, r: {"own hook ran": And(Not(is_none(ctx.get(ctx.self, "push_time"))), sv.value_eq(ctx.get(ctx.self, "push_time"), ctx.time)),
+                                "targets notified": notified(ctx, notify_log(ctx.old), notify_log(ctx), ctx.old.get(ctx.self, "_targets"),
+                                                             ctx.old.get(ctx.self, "_targets").n, ctx.time)},
+        call_checks={"notify_targets": su_order_push},
+        name="source_updated<DelayToPush>", primary=False,
+    ))
+
     # ---------------------------------------------------------------- push_data, non-static output
     def has_targets(ctx):
         return ctx.old.get(ctx.self, "_targets").n > 0
@@ -631,3 +658,31 @@ def install(ex):
         return None
 
     ex.hooks.setdefault("call_value", []).append(call_callback)
+
+
+# =================================================================================================
+# constructors of the output classes (C19.1 / C20.1): static flag and empty state as declared
+# =================================================================================================
+def register_ctor(reg):
+    from pyvc.sv import Bool, TObj
+    for cls, extra in (("Output", {"static": Bool}), ("CallbackOutput", {"callback": TObj("callback")})):
+        qual = f"finam.sdk.output.{cls}.__init__"
+        params = dict(extra)
+        params.update({"name": TOpt(Str), "info": sv.NONE})
+
+        def post(ctx, r, cls=cls):
+            s = ctx.self
+            static = ctx.static.e if cls == "Output" else z3.BoolVal(False)     # a callback output is never static
+            return {"static flag as declared": ctx.get(s, "_static").e == static,
+                    "nothing published, nobody connected": And(ctx.get(s, "data").n == 0, ctx.get(s, "_targets").n == 0,
+                                                               ctx.get(s, "_connected_inputs").keys.n == 0, ctx.get(s, "_out_infos_exchanged").e == 0,
+                                                               is_none(ctx.get(s, "_output_info"))),
+                    "no memory limit of its own": And(is_none(ctx.get(s, "_mem_limit")), is_none(ctx.get(s, "_mem_location")), ctx.get(s, "_total_mem").e == 0,
+                                                     ctx.get(s, "_mem_counter").e == 0)}
+
+        reg.add(Contract(qual, self_cls=cls, props=["C19.1", "C20.1", "C09.1", "C10.5"], params=params, ensures=post,
+                         raises={"ValueError": lambda ctx: is_none(ctx.name)}, must_raise={"ValueError": lambda ctx: is_none(ctx.name)},
+                         modifies=lambda ctx: [(ctx.self, f) for f in ("_targets", "data", "_output_info", "base_logger_name", "_name", "_static", "_connected_inputs",
+                                                                      "_out_infos_exchanged", "_time", "_mem_limit", "_mem_location", "_total_mem", "_mem_counter",
+                                                                      "callback", "_logger", "last_data", "$hist")],
+                         name=f"__init__<{cls}>", primary=False))
